@@ -67,6 +67,14 @@ impl SO2StateSpace {
         // TODO: Do we want to enforce a boundary here if it is above or below +/- PI?
         let clamped_bounds = (bounds.0.max(-PI), bounds.1.min(PI));
 
+        // An interval lying entirely outside [-PI, PI] clamps to an empty one.
+        if clamped_bounds.0 >= clamped_bounds.1 {
+            return Err(StateSpaceError::InvalidBound {
+                lower: bounds.0,
+                upper: bounds.1,
+            });
+        }
+
         Ok(Self {
             bounds: clamped_bounds,
             longest_valid_segment_fraction: 0.05,
